@@ -313,6 +313,29 @@ def replay_group(g):
             ids = [int(x) for x in np.asarray(inds)[:, 0]]
             if ids != sorted(ids) or len(set(ids)) != len(ids):
                 bad.append(("rotamer/%s/atom-inds-order" % name, {"ids": ids[:50]}))
+            if name == "all_rotamers" and (g["buf"] + n) % 2 == 0:
+                # the trajectory-set entry point of CARDS: every trajectory of the set (here: the same table three
+                # times) is assigned with the featurizer's buffer width, whatever the number of workers
+                from enspara.cards.featurizers import RotamerFeaturizer
+                for procs in (1, 2):
+                    try:
+                        fz = RotamerFeaturizer(buffer_width=buf, n_procs=procs)
+                        fz.fit(iter([traj, traj, traj]) if procs == 2 else [traj, traj, traj])
+                        feats = fz.feature_trajectories_
+                    except Exception as ex:
+                        bad.append(("rotamer/RotamerFeaturizer/raised", {"raised": "%s: %s" % (type(ex).__name__, ex),
+                                                                         "buf": buf, "n_procs": procs}))
+                        continue
+                    for ti, ft in enumerate(feats):
+                        wrong = [j for j, w in enumerate(ws) if [int(x) for x in np.asarray(ft)[:, j]] != w["e"]
+                                 and not _classify_rot(w, [int(x) for x in np.asarray(ft)[:, j]], w["e"], w["i"])]
+                        if len(feats) != 3 or wrong:
+                            j = wrong[0] if wrong else 0
+                            bad.append(("rotamer/RotamerFeaturizer/values", {"via": "RotamerFeaturizer(buffer_width=%s, n_procs=%d).fit" % (buf, procs),
+                                                                             "trajectory": ti, "n_feature_trajectories": len(feats), "case": ws[j],
+                                                                             "got": [int(x) for x in np.asarray(ft)[:, j]] if wrong else None,
+                                                                             "expected": ws[j]["e"], "buffer_width": buf}))
+                            break
     finally:
         rotamer.dihedral_angles, rotamer.md = saved, saved_md
     if g.get("real_conversion"):
